@@ -109,6 +109,17 @@ Definition chk_su (c : gpc) : bool :=
 Definition chk_all (c : gpc) : bool :=
   chk_chol c && chk_predict c && chk_nlml c && chk_cov c && chk_upd c && chk_su c.
 
+(* joint samples for a fantasy matrix: lfact, mean columns, draws zc[j][s], samples[j][s] (vectors over test points) *)
+Fixpoint tclose (tol : float) (a b : list (list (list float))) : bool :=
+  match a, b with
+  | [], [] => true
+  | x :: a', y :: b' => mclose tol x y && tclose tol a' b'
+  | _, _ => false
+  end.
+Definition chk_joint (c : list (list float) * list (list float) * list (list (list float)) * nat
+                          * list (list (list float)) * float) : bool :=
+  let '(lf, mc, zc, ns, smp, tol) := c in tclose tol (joint_samples NumF lf mc zc ns) smp.
+
 (* composite kernels: the kernel expressions of model/GPLin.v (kexpr / keval) evaluated at binary64:
    forward matrices, diagonal and the diagonal_depends_on_X flag against the real kernel objects *)
 Definition ccase := (kexpr NumF * list (list float) * list (list float) * list (list float)
@@ -282,7 +293,7 @@ def kernel_tol(ib, cs, A, B):
     return C_TOL * EPS * cs * (1.0 + 5.0 * s) * (2 + A.shape[1])
 
 
-def run_case(ctx, spec, cases_k, cases_g, meta, kmeta, jit_cases, jit_meta):
+def run_case(ctx, spec, cases_k, cases_g, meta, kmeta, jit_cases, jit_meta, jt_cases, jt_meta):
     from syne_tune.optimizer.schedulers.searchers.bayesopt.gpautograd.kernel import Matern52
     from syne_tune.optimizer.schedulers.searchers.bayesopt.gpautograd.mean import (
         ScalarMeanFunction, ZeroMeanFunction)
@@ -445,6 +456,44 @@ def run_case(ctx, spec, cases_k, cases_g, meta, kmeta, jit_cases, jit_meta):
         pm = np.asarray(state.predict(Xt)[0]).reshape(t, 1)
         lf = smp.reshape(t, t) - pm
         cov_impl = lf @ lf.T
+    # joint samples for a fantasy MATRIX (m > 1) and several samples at once: sample s of column j must be
+    # mean[:, j] + L z[:, j*S+s] (the documented layout), for the plain and the incremental state class
+    if m > 1:
+        jrng = random.Random("joint" + repr(spec["X"]) + repr(spec["Y"]))
+        S_ = jrng.choice([2, 3, 5])
+        st_plain = GaussProcPosteriorState(X, Y, meanf, kernel_arg, noise_arr)
+        probe = []
+        for s_ in range(t):
+            a_ = np.zeros((t, m, 1))
+            a_[s_, 0, 0] = 1.0
+            probe.append(a_)
+        pr = np.asarray(state.sample_joint(Xt, num_samples=t, random_state=ScriptedNormal(probe)))
+        draws = [np.array([[jrng.gauss(0, 1) for _ in range(m)] for _ in range(t)]).reshape(t, m, 1) for _ in range(S_)]
+        zjs = np.concatenate(draws, axis=-1)                       # z[:, j, s]
+        joint_bad = False
+        for nm_, st_ in (("IncrementalUpdateGPPosteriorState", state), ("GaussProcPosteriorState", st_plain)):
+            sm_ = np.asarray(st_.sample_joint(Xt, num_samples=S_, random_state=ScriptedNormal([a_.copy() for a_ in draws])))
+            if sm_.shape != (t, m, S_) or pr.shape != (t, m, t):
+                viol("%s.sample_joint returns shape %s for m=%d columns and %d samples" % (nm_, sm_.shape, m, S_),
+                     "joint_samples_layout", fantasies=m, num_samples=S_)
+                joint_bad = True
+                continue
+            lf_ = pr[:, 0, :] - mu[:, 0:1]                         # columns of the covariance factor
+            want_ = mu[:, :, None] + np.einsum("ab,bjs->ajs", lf_, zjs)
+            sc_ = float(np.max(np.abs(want_))) + 1e-300
+            if not float(np.max(np.abs(sm_ - want_))) <= 1e-9 * sc_:
+                joint_bad = True
+                viol("%s.sample_joint: sample s of fantasy column j is not mean[:, j] + L z[:, j*S+s] (max deviation "
+                     "%.3g, m=%d, num_samples=%d)" % (nm_, float(np.max(np.abs(sm_ - want_))), m, S_),
+                     "joint_samples_layout", fantasies=m, num_samples=S_)
+            elif nm_.startswith("Incremental"):
+                jt_cases.append("(%s, %s, %s, %d%%nat, %s, %s)" % (
+                    fmat(lf_), fcols(mu), lst([lst([fvec(zjs[:, j_, s2]) for s2 in range(S_)]) for j_ in range(m)]), S_,
+                    lst([lst([fvec(sm_[:, j_, s2]) for s2 in range(S_)]) for j_ in range(m)]), fl(1e-9 * sc_)))
+                jt_meta.append(dict(kind="gp", spec=spec))
+        if not joint_bad:
+            # the factor recovered through column 0 is the factor of the dense posterior covariance (+ jitter Id)
+            cov_m = lf_ @ lf_.T
     # marginal samples with scripted draws
     lrng = random.Random(repr(spec["X"]) + repr(spec["Y"]))
     z = np.array([[lrng.gauss(0, 1) for _ in range(m)] for _ in range(t)]).reshape(t, m, 1)
@@ -655,6 +704,19 @@ def run_case(ctx, spec, cases_k, cases_g, meta, kmeta, jit_cases, jit_meta):
         gpr.recompute_states({"features": Xg, "targets": Yg})
         (gm, gv), = gpr.predict(Xt)
         gm, gv = np.asarray(gm).reshape(-1).copy(), np.asarray(gv).reshape(-1).copy()
+        S_g = 1 + (n + t) % 4
+        rs_clone = np.random.RandomState()
+        rs_clone.set_state(gpr.random_state.get_state())
+        sj = np.asarray(gpr.sample_joint(Xt.copy(), num_samples=S_g))
+        zz = [rs_clone.normal(size=(t, 1, 1)) for _ in range(S_g)]
+        st_g = gpr.states[0]
+        prb = np.asarray(st_g.sample_joint(Xt.copy(), num_samples=t, random_state=ScriptedNormal(
+            [np.eye(t)[:, s_].reshape(t, 1, 1) for s_ in range(t)]))).reshape(t, t)
+        lf_g = prb - gm.reshape(t, 1)
+        want_g = gm.reshape(t, 1) + lf_g @ np.concatenate(zz, axis=-1).reshape(t, S_g)
+        if sj.shape != (t, S_g) or not float(np.max(np.abs(sj - want_g))) <= 1e-9 * (1 + float(np.max(np.abs(want_g)))):
+            viol("GaussianProcessRegression.sample_joint: sample s is not mean + L z_s for the model's own random "
+                 "stream (shape %s)" % (sj.shape,), "joint_samples_layout", num_samples=S_g)
         Xg[...] = 1.0 - Xg
         Yg[...] = Yg + 100.0
         (gm2, gv2), = gpr.predict(Xt.copy())
@@ -784,11 +846,12 @@ def run(ctx, replay=None):
     cases_k, cases_g, meta, kmeta, jit_cases, jit_meta = [], [], [], [], [], []
     ck_cases, ck_meta = [], []
     sq_cases, sq_meta = [], []
+    jt_cases, jt_meta = [], []
     import warnings
     with warnings.catch_warnings():
         warnings.simplefilter("ignore")
         for spec in specs:
-            info = run_case(ctx, spec, cases_k, cases_g, meta, kmeta, jit_cases, jit_meta)
+            info = run_case(ctx, spec, cases_k, cases_g, meta, kmeta, jit_cases, jit_meta, jt_cases, jt_meta)
             if info is not None:
                 ctx.sample(dict(kind="gp", n=info["n"], d=info["d"], fantasies=info["m"], cond=info["cond"],
                                 impl_mean_0_0=info["mean0"], impl_var_0=info["var0"], impl_nlml=info["nlml"]))
@@ -818,6 +881,10 @@ def run(ctx, replay=None):
         ctx.violation("correspondence", "model composite kernel matrix (warped / product / range) differs from the "
                       "implementation beyond round-off", case=ck_meta[i], failing_input=False,
                       broken="correspondence chk_ckernel (model/GPLin.v warped/product/range kernel)")
+    for i in ctx.coq_bad_cases("joint", IMPORTS, PRELUDE, "chk_joint", jt_cases, shard=60):
+        ctx.violation("correspondence", "model joint_samples layout differs from sample_joint on a fantasy matrix",
+                      case=jt_meta[i], failing_input=False,
+                      broken="correspondence chk_joint (model/GPLin.v joint_samples)")
     for i in ctx.coq_bad_cases("modelseq", IMPORTS, PRELUDE, "chk_model", sq_cases, shard=20):
         ctx.violation("correspondence", "model state machine (gstep / gpredict) and GaussianProcessRegression differ on "
                       "an operation sequence", case=sq_meta[i], failing_input=False,
